@@ -7,7 +7,10 @@
       first-character test that turns a bare word into a path string, the
       `spec_format` / `target_format` → parser / loader tables EXTRACTED from the AST);
     * `mw_handle_target` → `handleTarget` (empty text → `{}` before the format is even looked at,
-      loader errors → UsageError);
+      loader errors of the classes the `except` around `load_func(target_text)` NAMES → UsageError,
+      any other class leaves `main`);
+    * the reads of the spec file, the target file and standard input (`_read_stdin`): a failing
+      read whose class the enclosing `except` names → UsageError, any other class leaves `main`;
     * `glom_cli` → `glomCli` (GlomError → `Class: message` + return 1; `indent 0 → None`; `--scalar`);
     * `main` → `cliMain` (`cmd.run(argv) or 0`; UsageError leaves `main` as the SystemExit
       subclass face raises).
@@ -28,6 +31,12 @@ structure Facts where
   targetLoaders : List (String × String)  -- target_format → kind of loader
   targetDefault : String                  -- `missing=` of --target-format
   indentDefault : Int                     -- `missing=` of --indent
+  loadCatch : List (String × List String) -- target_format → classes named by the `except` around `load_func(target_text)`
+  loaderRaises : List (String × String × List String)
+                                          -- PROBE: loader kind, class it raised on a malformed text, that class's MRO (names)
+  specReadCatch : List String             -- classes named by the `except` around the read of --spec-file
+  targetReadCatch : List String           -- … around the read of --target-file
+  stdinReadCatch : List String            -- … around `sys.stdin.read()` (both sites); [] = no handler
   deriving DecidableEq, Repr
 
 inductive LibRes (R : Type) where
@@ -48,7 +57,9 @@ structure Ext (T S R : Type) where
   dumps : R → Option Int → Except String String   -- json.dumps(r, indent=…, sort_keys=True) | raised class
   isScalar : R → Bool
   str : R → String                             -- what `print(result, end='')` writes
-  readFile : String → Option String            -- `open(p).read()`; `none` = OSError
+  readFile : String → Option String            -- `open(p).read()` (text mode); `none` = it raised
+  readErr : String → String                    -- the class `open(p).read()` raised (FileNotFoundError, IsADirectoryError, UnicodeDecodeError …)
+  mro : String → List String                   -- names of the classes in the MRO of an exception class (Python's hierarchy)
 
 structure Argv where
   posargs : List String
@@ -63,11 +74,12 @@ structure Argv where
 structure World where
   stdin : String
   stdinTty : Bool
+  stdinErr : Option String           -- the class `sys.stdin.read()` raises (undecodable bytes: UnicodeDecodeError); none = readable
   deriving DecidableEq, Repr
 
 inductive Usage where
   | specBoth | specFileUnreadable | badSpecFormat
-  | targetBoth | targetFileUnreadable | badTargetFormat
+  | targetBoth | targetFileUnreadable | stdinUnreadable | badTargetFormat
   | loadError (cls : String)
   deriving DecidableEq, Repr
 
@@ -90,6 +102,14 @@ def posTexts (a : Argv) : Option String × Option String :=
   | _ => (none, none)
 
 variable {T S R : Type}
+
+/-- `except (A, B) as e:` catches an exception of class `c` iff a class of `c`'s MRO is named -/
+def caughtBy (X : Ext T S R) (names : List String) (c : String) : Bool :=
+  (X.mro c).any names.contains
+
+/-- a failing read under `try: … except names as e: raise UsageError(…)` -/
+def readFail (X : Ext T S R) (names : List String) (u : Usage) (c : String) : Outcome :=
+  if caughtBy X names c then .usage u else .exc c
 
 /-- an exception raised by a parser leaves `main` as it is -/
 def liftExc (r : Except String S) : Except Outcome S :=
@@ -117,7 +137,7 @@ def getSpec (F : Facts) (X : Ext T S R) (a : Argv) : Except Outcome S :=
       if truthy a.specFile then
         match X.readFile (a.specFile.getD "") with
         | some t => .ok (some t)
-        | none => .error (.usage .specFileUnreadable)
+        | none => .error (readFail X F.specReadCatch .specFileUnreadable (X.readErr (a.specFile.getD "")))
       else .ok specText
     match specText with
     | .error o => .error o
@@ -125,23 +145,36 @@ def getSpec (F : Facts) (X : Ext T S R) (a : Argv) : Except Outcome S :=
       if !truthy specText then .ok X.emptySpec                 -- spec = Path()
       else parseSpec F X (a.specFormat.getD F.specDefault) (specText.getD "")
 
+/-- `_read_stdin()` / `sys.stdin.read()` -/
+def readStdin (F : Facts) (X : Ext T S R) (w : World) : Except Outcome (Option String) :=
+  match w.stdinErr with
+  | none => .ok (some w.stdin)
+  | some c => .error (readFail X F.stdinReadCatch .stdinUnreadable c)
+
 /-- the target-source part of `mw_get_target` -/
-def getTargetText (X : Ext T S R) (a : Argv) (w : World) : Except Outcome (Option String) :=
+def getTargetText (F : Facts) (X : Ext T S R) (a : Argv) (w : World) : Except Outcome (Option String) :=
   let targetText := (posTexts a).2
   if truthy targetText && truthy a.targetFile then .error (.usage .targetBoth)
-  else if targetText == some "-" || a.targetFile == some "-" then .ok (some w.stdin)
+  else if targetText == some "-" || a.targetFile == some "-" then readStdin F X w
   else if truthy a.targetFile then
     match X.readFile (a.targetFile.getD "") with
     | some t => .ok (some t)
-    | none => .error (.usage .targetFileUnreadable)
-  else if !truthy targetText && !w.stdinTty then .ok (some w.stdin)
+    | none => .error (readFail X F.targetReadCatch .targetFileUnreadable (X.readErr (a.targetFile.getD "")))
+  else if !truthy targetText && !w.stdinTty then readStdin F X w
   else .ok targetText
 
-/-- `except Exception as e: raise UsageError('could not load target data, got: …')` -/
-def liftLoad (r : Except String T) : Except Outcome T :=
+/-- the classes the `except` around the loader names for this target format -/
+def catchOf (F : Facts) (fmt : String) : List String :=
+  match F.loadCatch.find? (·.1 == fmt) with
+  | some p => p.2
+  | none => []
+
+/-- `try: target = load_func(target_text)  except names as e: raise UsageError('could not load
+    target data, got: …')` -/
+def liftLoad (X : Ext T S R) (names : List String) (r : Except String T) : Except Outcome T :=
   match r with
   | .ok t => .ok t
-  | .error c => .error (.usage (.loadError c))
+  | .error c => if caughtBy X names c then .error (.usage (.loadError c)) else .error (.exc c)
 
 /-- `mw_handle_target` -/
 def handleTarget (F : Facts) (X : Ext T S R) (text : Option String) (fmt : String) : Except Outcome T :=
@@ -149,7 +182,7 @@ def handleTarget (F : Facts) (X : Ext T S R) (text : Option String) (fmt : Strin
   else
     match F.targetLoaders.find? (·.1 == fmt) with
     | none => .error (.usage .badTargetFormat)
-    | some (_, loader) => liftLoad (X.load loader (text.getD ""))
+    | some (_, loader) => liftLoad X (catchOf F fmt) (X.load loader (text.getD ""))
 
 /-- `glom_cli` (without --debug / --inspect) -/
 def glomCli (X : Ext T S R) (target : T) (spec : S) (indent : Int) (scalar : Bool) : Outcome :=
@@ -174,7 +207,7 @@ def cliMain (F : Facts) (X : Ext T S R) (a : Argv) (w : World) : Outcome :=
   match getSpec F X a with
   | .error o => o
   | .ok spec =>
-    match getTargetText X a w with
+    match getTargetText F X a w with
     | .error o => o
     | .ok text => runWith F X a spec (handleTarget F X text (a.targetFormat.getD F.targetDefault))
 
